@@ -256,7 +256,7 @@ def s_width(ex, st, fr, text, args):
     return Native('optwidth', (args[0],))
 
 
-@summary(r'^(std::option::)?Option::<(u8|u16|u32|u64|usize|char|bool)>::unwrap_or$', 'Option::unwrap_or')
+@summary(r'^(std::option::)?Option::<(u8|u16|u32|u64|usize|char|bool|&.*)>::unwrap_or$', 'Option::unwrap_or')
 def s_unwrap_or(ex, st, fr, text, args):
     o, d = args
     if isinstance(o, Native) and o.tag == 'optwidth':
@@ -762,6 +762,16 @@ def s_opt_filter(ex, st, fr, text, args):
     return Multi(_split_bool(ex, res, lambda s: o, lambda s: none()))
 
 
+@summary(r'^(std::result::)?Result::<.*>::map_or::<', 'Result::map_or(default, f): f(v) for Ok(v), default for Err')
+def s_res_map_or(ex, st, fr, text, args):
+    o, d, f = args
+    if not isinstance(o, E):
+        raise Inconclusive('map_or on %r' % (o,))
+    if o.v == 'Err':
+        return d
+    return Multi(_call_any(ex, st, f, [o.f[0]]))
+
+
 @summary(r'^(std::option::)?Option::<.*>::map_or::<', 'Option::map_or(default, f)')
 def s_opt_map_or(ex, st, fr, text, args):
     o, d, f = args
@@ -890,6 +900,41 @@ def s_atomic_swap(ex, st, fr, text, args):
     old = _atomic_get(ex, st, args[0])
     _atomic_set(ex, st, args[0], args[1])
     return old
+
+
+@summary(r'^(std|core)::mem::needs_drop::<', 'mem::needs_drop::<T>: false for types built from scalars, tuples and cells; true when T names an owning container')
+def s_needs_drop(ex, st, fr, text, args):
+    t = text[text.index('::<') + 3:]
+    return S(1, 1 if re.search(r'\b(Vec|String|Box|Rc|Arc|HashMap|BTreeMap)\b', t) else 0)
+
+
+# ------------------------------------------------------------------------------------------------
+# Rc: the pointee lives in the root frame of the explored state; clones of the Rc share it
+
+@summary(r'^(std::rc::|alloc::rc::)?Rc::<.*>::new$', 'Rc::new: the value is placed in the state, the Rc is a handle to it')
+def s_rc_new(ex, st, fr, text, args):
+    n = st.aux.get('rc_count', 0)
+    st.aux['rc_count'] = n + 1
+    slot = '__rc%d' % n
+    st.root()[slot] = args[0]
+    return Native('rc', (slot,))
+
+
+@summary(r'^<(std::rc::|alloc::rc::)?Rc<.*> as (std::clone::)?Clone>::clone$', 'Rc::clone: another handle to the same value (shared)')
+def s_rc_clone(ex, st, fr, text, args):
+    v = ex.deref(st, args[0])
+    if not (isinstance(v, Native) and v.tag == 'rc'):
+        raise Inconclusive('Rc::clone on %r' % (v,))
+    ex.hidden_state = True        # from here on two owners can reach the same (possibly interior-mutable) value
+    return v
+
+
+@summary(r'^<(std::rc::|alloc::rc::)?Rc<.*> as (std::ops::)?Deref>::deref$', 'Rc::deref: reference to the shared value')
+def s_rc_deref(ex, st, fr, text, args):
+    v = ex.deref(st, args[0])
+    if not (isinstance(v, Native) and v.tag == 'rc'):
+        raise Inconclusive('Rc::deref on %r' % (v,))
+    return Ref(0, v.p[0], ())
 
 
 # ------------------------------------------------------------------------------------------------
